@@ -23,6 +23,7 @@ CONTRACT_MODULES = [
     "contracts.hytera",
     "contracts.motorola",
     "contracts.mbxml_doc",
+    "contracts.pairs",
 ]
 
 TRUSTED_BASE = [
